@@ -680,15 +680,16 @@ package hclwrite
 //@ nosafety
 //@ assumesassigns nothing
 //@ assumes forall j int :: { ret[j] } 0 <= j && j < len(ret) ==> fresh(ret[j]) && asLexed(ret[j])
-//@ callsite LexConfig whole: arg0 === src && arg2.Byte == 0 && arg2.Line == 1 && arg2.Column == 1
+// (old(): the parameter as passed by the caller, not a reassigned local of the same name)
+//@ callsite LexConfig whole: arg0 === old(src) && arg2.Byte == 0 && arg2.Line == 1 && arg2.Column == 1
 // The loader parses and lexes the same bytes from the same start position: the ranges of the syntax
 // tree and the ranges of the tokens it is matched against refer to one coordinate system.
 // verif:func parse
 //@ nosafety
 //@ assumepre
 //@ props C10
-//@ callsite ParseConfig same: arg0 === src && arg1 == filename && arg2 == start
-//@ callsite LexConfig same: arg0 === src && arg1 == filename && arg2 == start
+//@ callsite ParseConfig same: arg0 === old(src) && arg1 == old(filename) && arg2 == old(start)
+//@ callsite LexConfig same: arg0 === old(src) && arg1 == old(filename) && arg2 == old(start)
 // The conversion from scanner tokens to writer tokens behind lexConfig copies every token: same
 // type, a private copy of the bytes of equal length (that the content is equal is not proved: the
 // engine does not model copy()'s content), and the gap to the previous token
